@@ -243,3 +243,57 @@ func Harness_C09_points_compressed() {
 	vr.Assert("all bytes consumed", r.pos == len(w.buf))
 	vr.Reach("end")
 }
+
+// Compressed loop header: the properties word carries originInside and the
+// bound-present flag independently, for loops below and above the 64-vertex threshold.
+func Harness_C09_loop_compressed_properties() {
+	n := [...]int{0, 3, 63, 64, 65}[vr.Choose("ni", 0, 4)]
+	l := &Loop{vertices: make([]Point, n), originInside: vr.Bool("originInside")}
+	props := l.compressedEncodingProperties()
+	vr.Assert("originInside bit", (props&originInside != 0) == l.originInside)
+	vr.Assert("bound flag ⇔ at least 64 vertices", (props&boundEncoded != 0) == (n >= 64))
+	vr.Assert("no other bits", props&^uint64(originInside|boundEncoded) == 0)
+	vr.Reach("end")
+}
+
+// Compressed loop round trip (small loops): vertices via the compressed point codec,
+// originInside and depth through the properties/uvarint fields.
+func Harness_C09_loop_compressed_roundtrip() {
+	vrC15Stubs()
+	vr.Stub("facePiQitoXYZ", "vrstub_packPiQi")
+	vr.Stub("(*encoder).writeUvarint", "vrstub_writeUvarintFixed")
+	vr.Stub("(*decoder).readUvarint", "vrstub_readUvarintFixed")
+	vr.Unwind(64)
+	L := [...]int{0, 9, 30}[vr.Choose("Li", 0, 2)]
+	n := vr.Choose("n", 0, 2)
+	vs := make([]xyzFaceSiTi, n)
+	l := &Loop{vertices: make([]Point, n), originInside: vr.Bool("originInside"), depth: int(vr.Uint32("depth") & 0xffff)}
+	for i := range vs {
+		vs[i].xyz = vrPoint("xyz")
+		l.vertices[i] = vs[i].xyz
+		vs[i].face = vr.Int("face")
+		vr.Assume(vr.And(vs[i].face >= 0, vs[i].face < 6))
+		vs[i].si, vs[i].ti = vr.Uint32("si"), vr.Uint32("ti")
+		vr.Assume(vr.And(vs[i].si <= maxSiTi, vs[i].ti <= maxSiTi))
+		vs[i].level = -1 // un-snapped: the exact bits must come back
+	}
+	w := &vrWriter{}
+	e := &encoder{w: w}
+	l.encodeCompressed(e, L, vs)
+	vr.Assert("encode error", e.err == nil)
+	r := &vrBufReader{s: w.buf}
+	d := &decoder{r: r}
+	l2 := new(Loop)
+	l2.decodeCompressed(d, L)
+	vr.Assert("decode error", d.err == nil)
+	vr.Assert("vertex count", len(l2.vertices) == n)
+	ok := true
+	for i := 0; i < n && i < len(l2.vertices); i++ {
+		ok = vr.And(ok, vrSamePoint(l2.vertices[i], l.vertices[i]))
+	}
+	vr.Assert("vertices identical", ok)
+	vr.Assert("originInside", l2.originInside == l.originInside)
+	vr.Assert("depth", l2.depth == l.depth)
+	vr.Assert("all bytes consumed", r.pos == len(w.buf))
+	vr.Reach("end")
+}
